@@ -1,7 +1,7 @@
 CONSTANTS
   GenIds = {1}
   MaxFrames = 3
-  MaxStack = 8
+  MaxStack = 7
   MaxRust = 3
   MaxTmp = 2
   ArgcSet = {0, 1}
